@@ -482,7 +482,14 @@ def run(ctx):
             "cases": len(cases),
         }
         ctx.log("%d cases over %d urls (%d routes)" % (len(cases), len(rts), len(app.handlers)))
-        par.pmap_tally(chunk_fn, cases, ctx.tally, nchunks=par.NPROC * 2)
+        # forked workers: keep the collector from touching (and thereby copying) the parent's heap - page faults
+        # are very expensive on this kind of VM; the quick tier is ~15 s of CPU, a small pool suffices
+        import gc
+
+        gc.collect()
+        gc.freeze()
+        nproc = par.NPROC if thorough else min(par.NPROC, 6)
+        par.pmap_tally(chunk_fn, cases, ctx.tally, nchunks=nproc * 2, nproc=nproc)
         t = ctx.tally
         ctx.log("counters: %s" % dict(sorted(t.extra.items())))
         for k in ("authorised_request_changed_state", "authorised_request_returned_flow_data", "authorised_websocket_upgraded"):
